@@ -1606,7 +1606,6 @@ func describeValue(v ssa.Value) string {
 	return fmt.Sprintf("%T %s", v, v.String())
 }
 
-
 // ---- R-SUCCESS ---------------------------------------------------------------------
 
 func ruleSuccess(c *Ctx) {
@@ -1908,7 +1907,6 @@ func comparisonVerdict(v ssa.Value, depth int) bool {
 	return false
 }
 
-
 // enumExhausted: t is a named integer type of the library and every named
 // constant of that type is in the excluded set.
 func (b *Body) enumExhausted(t types.Type, excluded map[int64]bool) bool {
@@ -1929,7 +1927,6 @@ func (b *Body) enumExhausted(t types.Type, excluded map[int64]bool) bool {
 	}
 	return cnt > 0
 }
-
 
 // fieldDomainExhausted: v is a load of a struct field of a library type to
 // which only constants are ever stored (a typestate tag); every such constant
@@ -1970,7 +1967,6 @@ func (b *Body) fieldDomainExhausted(v ssa.Value, excluded map[int64]bool) bool {
 	}
 	return true
 }
-
 
 // checkOperationShape: an operation is a map from member name to raw JSON, so
 // unknown members are ignored and member names are matched case-sensitively
@@ -2097,7 +2093,6 @@ func (b *Body) checkOperationShape(l *Ledger) {
 	}
 }
 
-
 // operationOrderObligation: failures are decided in operation order. The
 // apply function has one loop over the patch that can end the call — the
 // dispatch loop; any other loop over the operations (a pre-scan, a
@@ -2170,7 +2165,6 @@ func (b *Body) operationOrderObligation(l *Ledger, ai *applyInfo) {
 		l.add("R-DISPATCH", b.Name, key, b.rel(fn.Pos()), Discharged, fmt.Sprintf("the dispatch loop plus %d other loop(s) over the patch, none with an early exit into an error return", n), true)
 	}
 }
-
 
 // codecDecodeWrapper: f is a codec decoding entry point, or a library function
 // that does nothing but hand its first two parameters to one.
@@ -2258,7 +2252,6 @@ func (b *Body) decodedString(v ssa.Value, from ssa.Value) string {
 	return bad
 }
 
-
 // sameCollection: two SSA values denote the same slice/string/array: identical,
 // or loads of the same field of the same base, or loads of the same local.
 func sameCollection(x, y ssa.Value) bool {
@@ -2334,7 +2327,6 @@ func isCountedIndex(h *ssa.BasicBlock, idx ssa.Value, over ssa.Value) bool {
 	}
 	return sameCollection(ln, over)
 }
-
 
 // errorIsReturned: on every path from the call to an exit of its function the error result
 // of the function is the call's own error (possibly through phis, or wrapped with %w).
